@@ -2,8 +2,8 @@
 import native
 
 
-def run_native(which, mode, timeout, dead=False):
-    out, _, rc, err = native.run('rpc', which=which, mode=mode, timeout_ms=timeout, dead=1 if dead else 0, timeout=30)
+def run_native(which, mode, timeout, dead=False, mode2='reply:8'):
+    out, _, rc, err = native.run('rpc', which=which, mode=mode, mode2=mode2, timeout_ms=timeout, dead=1 if dead else 0, timeout=30)
     if rc != 0:
         raise RuntimeError('native rpc replay failed: ' + err[-300:])
     log = [x for x in out.get('log', '').split(',') if x]
@@ -12,7 +12,24 @@ def run_native(which, mode, timeout, dead=False):
     return log, r, int(t)
 
 
+def replay_multi(args):
+    bad, obs = [], {}
+    for tag, m1, m2, tmo, want in (('both_reply', 'reply:7', 'reply:8', 100, 'Success:7|Success:8'), ('first_late', 'late:50', 'reply:8', 100, 'Success:9|Success:8'),
+                                   ('second_late', 'reply:7', 'late:50', 100, 'Success:7|Success:9'), ('first_drops', 'drop', 'reply:8', None, 'SenderError|Success:8'),
+                                   ('second_drops', 'reply:7', 'drop', 100, 'Success:7|SenderError'), ('first_holds', 'hold', 'reply:8', 100, 'Timeout|Success:8'),
+                                   ('second_holds', 'reply:7', 'hold', 100, 'Success:7|Timeout')):
+        log, r, t = run_native('multi', m1, tmo, False, m2)
+        obs[tag] = log
+        if r != want:
+            bad.append('%s: result %s, expected %s' % (tag, r, want))
+        if tmo is not None and t > tmo:
+            bad.append('%s: answered at %d ms, expected by %d ms' % (tag, t, tmo))
+    return {'replayed': bool(bad), 'detail': 'native multi_call scenarios: %s ; observations %s' % (bad, obs), 'replay': {'which': 'multi', 'args': args}}
+
+
 def replay(which, args):
+    if which == 'multi':
+        return replay_multi(args)
     bad, obs = [], {}
     if which == 'reply_port':
         # RpcReplyPort::send is exercised by every successful reply below
